@@ -1,4 +1,4 @@
-//@ unit u2b_ingest props C02
+//@ unit u2b_ingest props C02 also C17
 // Unit U2b: the first filter of rows received from a peer (src/database/graph_database.rs: GraphDatabase::add_nodes and
 // add_edges), in front of the authorisation actor (unit u2_verdicts).  A received node goes on to authorisation only if it
 // carries a row, that row is stored in the room being synchronised, its entity is known to the data model and its content
@@ -19,7 +19,8 @@ pub struct DbError { x: u8 }
 //@ end
 //@ extract src/database/edge.rs :: struct Edge
 //@ end
-pub struct Entity { x: u8 }
+/// an entity of the data model: only what the filter reads of it
+pub struct Entity { pub enable_full_text: bool, pub x: u8 }
 /// the data model: which short entity identifiers are known and which full name they stand for
 pub struct DataModel { x: u8 }
 pub uninterp spec fn spec_name_for(dm: DataModel, short_name: Seq<char>) -> Option<String>;
@@ -38,7 +39,19 @@ impl DataModel {
 pub fn validate_json_for_entity(entity: &Entity, json: &Option<String>) -> (r: std::result::Result<(), DbError>)
     ensures r is Ok <==> json_conforms(*entity, *json)
 { unimplemented!() }
+/// the text the full-text index holds for a row: node::extract_json over the parsed JSON (the same extraction as the local mutation path)
+pub uninterp spec fn fts_ok(json: Seq<char>) -> bool;
+pub uninterp spec fn spec_fts(json: Seq<char>) -> Seq<char>;
+#[verifier::external_body]
+pub fn fts_string(json_str: &String) -> (r: std::result::Result<String, DbError>)
+    ensures r is Ok <==> fts_ok(json_str@), r is Ok ==> r->Ok_0@ == spec_fts(json_str@)
+{ unimplemented!() }
 pub struct GraphDatabase { pub data_model: DataModel, x: u8 }
+/// what the index must hold for a received row: its current text when the entity is indexed, nothing otherwise
+pub open spec fn expected_fts(e: Entity, json: Option<String>) -> Option<Seq<char>> {
+    if e.enable_full_text && json is Some { Some(spec_fts(json->Some_0@)) } else { None }
+}
+pub open spec fn ov_str(o: Option<String>) -> Option<Seq<char>> { match o { Some(s) => Some(s@), None => None } }
 
 /// what the property asks of a received node before anything else looks at it
 pub open spec fn node_admissible(dm: DataModel, room_id: Uid, n: NodeToInsert) -> bool {
@@ -47,7 +60,10 @@ pub open spec fn node_admissible(dm: DataModel, room_id: Uid, n: NodeToInsert) -
     && spec_name_for(dm, n.node->Some_0._entity@) is Some
     && spec_entity(dm, spec_name_for(dm, n.node->Some_0._entity@)->Some_0@) is Some
     && json_conforms(spec_entity(dm, spec_name_for(dm, n.node->Some_0._entity@)->Some_0@)->Some_0, n.node->Some_0._json)
+    // and, for an indexed entity, its text can be extracted
+    && (spec_entity(dm, spec_name_for(dm, n.node->Some_0._entity@)->Some_0@)->Some_0.enable_full_text && n.node->Some_0._json is Some ==> fts_ok(n.node->Some_0._json->Some_0@))
 }
+pub open spec fn entity_of(dm: DataModel, n: NodeToInsert) -> Entity { spec_entity(dm, spec_name_for(dm, n.node->Some_0._entity@)->Some_0@)->Some_0 }
 
 //@ extract src/database/graph_database.rs :: impl GraphDatabase / fn add_nodes as GraphDatabase::add_nodes_body
 //@ lift-loop "for mut node_to_insert in nodes" :: fn add_nodes_body(&self, room_id: Uid, node_to_insert0: NodeToInsert, invalid_nodes: &mut Vec<Uid>, valid_nodes: &mut Vec<NodeToInsert>)
@@ -61,6 +77,11 @@ pub open spec fn node_admissible(dm: DataModel, room_id: Uid, n: NodeToInsert) -
                 && final(valid_nodes)@.subrange(0, old(valid_nodes)@.len() as int) == old(valid_nodes)@
                 && final(valid_nodes)@.last().node == node_to_insert0.node && final(valid_nodes)@.last().id == node_to_insert0.id
                 && final(valid_nodes)@.last().entity_name == spec_name_for(self.data_model, node_to_insert0.node->Some_0._entity@),
+            // [received_row_indexed_like_a_local_one]{C17} a received row of an entity with full-text indexing goes on with indexing on and its current text (the same extraction as a local mutation); the text of the version it replaces was recorded when the row was selected (Node::filter_existing)
+            node_admissible(self.data_model, room_id, node_to_insert0) ==>
+                final(valid_nodes)@.last().index == (entity_of(self.data_model, node_to_insert0).enable_full_text || node_to_insert0.index)
+                && (entity_of(self.data_model, node_to_insert0).enable_full_text ==> ov_str(final(valid_nodes)@.last().node_fts_str) == expected_fts(entity_of(self.data_model, node_to_insert0), node_to_insert0.node->Some_0._json))
+                && final(valid_nodes)@.last().old_fts_str == node_to_insert0.old_fts_str,
             // [inadmissible_node_rejected_by_id]{C02} every other node is reported as rejected and goes nowhere
             !node_admissible(self.data_model, room_id, node_to_insert0) ==> final(valid_nodes)@ == old(valid_nodes)@ && final(invalid_nodes)@ == old(invalid_nodes)@.push(node_to_insert0.id),
 //@ end
